@@ -38,6 +38,7 @@ GenInit == Init /\ hist = <<[act |-> "Greet", s1 |-> greet, s2 |-> IF SyncLit TH
 
 GenStep ==
   \/ \E k \in Kinds : \E a \in ArgsOf(k) : Submit(k, a) /\ Log("Submit", k, a, 0, 0)
+  \/ \E k \in Kinds : \E a \in ArgsOf(k) : SubmitDead(k, a) /\ Log("SubmitDead", k, a, 0, 0)
   \/ \E i \in 1..MaxCmds : IdleDone(i) /\ Log("IdleDone", None, None, i, 0)
   \/ \E i \in 1..MaxCmds : Cont(i) /\ Log("Cont", None, None, i, 0)
   \/ \E n \in 0..MaxNum : Exists(n) /\ Log("Exists", None, None, n, 0)
@@ -76,7 +77,8 @@ GenNext == /\ (MaxDepth > 0 => Len(hist) <= MaxDepth)
 \* submission order are still pending is (the client keeps its pending commands in a list), and so is, for every
 \* pending command, which completions it has witnessed since it was submitted: a list that is compacted wrongly
 \* when an element is removed ends up in a state that depends on exactly that
-SubmitIdx(j) == CHOOSE x \in 1..Len(hist) : hist[x].act = "Submit" /\ Cardinality({y \in 1..x : hist[y].act = "Submit"}) = j
+IsSubmit(e) == e.act \in {"Submit", "SubmitDead"}
+SubmitIdx(j) == CHOOSE x \in 1..Len(hist) : IsSubmit(hist[x]) /\ Cardinality({y \in 1..x : IsSubmit(hist[y])}) = j
 Witnessed(j) == LET tail == SubSeq(hist, SubmitIdx(j) + 1, Len(hist))
                     tg == SelectSeq(tail, LAMBDA e : e.act = "Tagged")
                 IN [x \in 1..Len(tg) |-> tg[x].n1]
